@@ -50,7 +50,8 @@ inductive Res where
   | val (r : Option Val)
   | num (n : Int)
   | bool (b : Bool)
-  | items (l : List Val)
+  | items (l : List Val) (sawNil : Bool)   -- `sawNil` (ghost): the loop ended because a Dequeue returned nil
+  | dropped                                -- (ghost) `signal` found the subscriber inactive; rendered like `ok`
   | panic
   deriving Repr, DecidableEq
 
@@ -166,9 +167,9 @@ def ret (c : Cfg) (t : Thread) (k : Cont) (r : Option Val) (pick : Option Nat) :
   | .plain => finishOp c t (.val r) pick
   | .iter rem acc =>
     match r with
-    | none => finishOp c t (.items acc.reverse) pick
+    | none => finishOp c t (.items acc.reverse true) pick
     | some v =>
-      if rem ≤ 1 then finishOp c t (.items (v :: acc).reverse) pick
+      if rem ≤ 1 then finishOp c t (.items (v :: acc).reverse false) pick
       else (c, { t with pc := some (.deqLoadHead (.iter (rem - 1) (v :: acc))) })
 
 def logEv (c : Cfg) (tid : Nat) (e : Ev) : Cfg := { c with lin := (tid, e) :: c.lin }
@@ -210,10 +211,10 @@ def exec (c : Cfg) (tid : Nat) (t : Thread) (pick : Option Nat) : PC → Cfg × 
     if c.active then
       let (n, c') := getItem c pick v
       (c', { t with pc := some (.enqLoadTail n v) })
-    else finishOp c t .ok pick
+    else finishOp c t .dropped pick
   | .itLen =>
     if lenRead c < 0 then finishOp c t .panic pick
-    else if lenRead c = 0 then finishOp c t (.items []) pick
+    else if lenRead c = 0 then finishOp c t (.items [] false) pick
     else (c, { t with pc := some (.deqLoadHead (.iter (lenRead c).toNat [])) })
   | .shut => finishOp { c with active := false } t .ok pick
 
